@@ -6,7 +6,11 @@ class) with lean/PM/Step.lean, including steps decoded from JSON.
 Search: on every applied step: failed result or ValueError, or a document accepted by `check()`
 AND by the independent spec validator; any other exception class is a violation.
 
-Second stream ("payload well-formedness", `apply_no_internal`): steps whose slices carry perturbed open
+Aimed: replace-around steps whose insertion point lies outside their slice (`insert` in (size, size + open_end], negative
+`insert` before an open start): refused by `Slice.insert_at` (second repair for C01) — validity oracle, exact tie for the
+non-negative ones (the model's positions are naturals), expectation "refused".
+
+Second stream ("payload well-formedness", `apply_no_internal'`): steps whose slices carry perturbed open
 depths / insert offsets and whose positions may lie outside the document.  Tie: `StepWF` / `StepOrdered`
 of lean/PM/StepWF.lean against their re-statement on the real objects (exact), and `apply` (exact) on the
 well-formed, ordered ones.  Oracle: a well-formed, ordered step must not end in an internal error; the
@@ -14,7 +18,7 @@ internal errors met on ill-formed payloads are counted (they show the hypothesis
 """
 import json
 
-from prosemirror.model import Fragment, Schema, Slice
+from prosemirror.model import Fragment, Node, Schema, Slice
 from prosemirror.transform import AddMarkStep, RemoveMarkStep, ReplaceAroundStep, ReplaceStep, Step
 
 from .. import core, gen, schemas
@@ -78,6 +82,11 @@ def gen_wf_probe(rng, info, doc, docs):
             return Slice(sl.content, _spine(sl.content, True), _spine(sl.content, False))
         return Slice(sl.content, max(0, sl.open_start + rng.choice([-1, 0, 1, 1, 2])),
                      max(0, sl.open_end + rng.choice([-1, 0, 1, 1, 2])))
+
+    def kept(a, b):
+        # the payload is still the slice as it was cut from a valid document (bending an open depth down turns a partly
+        # present node into a complete one: not a valid payload any more, outside the property's quantifier)
+        return a.open_start == b.open_start and a.open_end == b.open_end
     if isinstance(step, ReplaceAroundStep):
         sl = bend(step.slice)
         f, t, gf, gt = step.from_, step.to, step.gap_from, step.gap_to
@@ -87,7 +96,11 @@ def gen_wf_probe(rng, info, doc, docs):
         elif r < 0.35:
             f, t, gf, gt = pos(), pos(), pos(), pos()
         ins = step.insert if rng.random() < 0.4 else rng.randint(0, max(0, sl.size) + 2)
-        return ReplaceAroundStep(f, t, gf, gt, sl, ins, step.structure)
+        # the generator's wrapper slices (`<blockquote()>`) are valid only with the gap content in its place: with another
+        # insertion point the slice has to be valid by itself (closed, every node passes `check()`)
+        alone = sl.open_start == 0 and sl.open_end == 0 and all(
+            outcome(sl.content.child(j).check)[0] == "ok" for j in range(sl.content.child_count))
+        return ReplaceAroundStep(f, t, gf, gt, sl, ins, step.structure), kept(sl, step.slice) and (ins == step.insert or alone)
     if isinstance(step, ReplaceStep):
         f, t = step.from_, step.to
         r = rng.random()
@@ -95,7 +108,8 @@ def gen_wf_probe(rng, info, doc, docs):
             f, t = sorted([pos(), pos()])
         elif r < 0.3:
             f, t = pos(), pos()
-        return ReplaceStep(f, t, bend(step.slice), step.structure)
+        sl = bend(step.slice)
+        return ReplaceStep(f, t, sl, step.structure), kept(sl, step.slice)
     if isinstance(step, (AddMarkStep, RemoveMarkStep)):
         f, t = step.from_, step.to
         r = rng.random()
@@ -103,13 +117,155 @@ def gen_wf_probe(rng, info, doc, docs):
             f, t = sorted([pos(), pos()])
         elif r < 0.4:
             f, t = pos(), pos()
-        return type(step)(f, t, step.mark)
-    return step
+        return type(step)(f, t, step.mark), True
+    return step, True
+
+
+def block_runs(doc):
+    """(start position of the content of `parent`, parent, i) for every run of three consecutive non-leaf children
+    `i, i+1, i+2` of a node of `doc` (the document itself included)"""
+    out = []
+
+    def walk(node, start):
+        pos = start
+        kids = [node.child(j) for j in range(node.child_count)]
+        for i, ch in enumerate(kids):
+            if i + 2 < len(kids) and not any(k.is_leaf or k.is_text for k in kids[i:i + 3]):
+                out.append((start, node, i))
+            if not ch.is_leaf and not ch.is_text:
+                walk(ch, pos + 1)
+            pos += ch.node_size
+    walk(doc, 0)
+    return out
+
+
+def aimed_insert_outside(rng, doc):
+    """replace-around steps whose insertion point lies outside their slice, built so that everything else about the step
+    is in order (a peer can send one: `from_json` does not look at `insert`).  Three neighbouring block children
+    `c0 c1 c2` of some node; the gap is `c1`.
+      * open end: `from` before `c0`, `to` inside `c2`, slice `<c0'>` open 0/1 with `c0'` a copy of `c0` holding a prefix
+        of its children (often none: not valid content by itself, allowed — the node is open); `insert` in
+        (size, size + open_end]: the gap content lands *behind* the open node, the filled slice is open through `c1`
+        instead and `c0'` goes into the document as a complete node nobody looked at;
+      * open start, mirrored: `from` inside `c0`, `to` behind `c2`, slice `<c2'>` open 1/0, `insert` negative.
+    `Slice.insert_at` refuses both (second repair for C01); before it the step returned a schema-invalid document.
+    Returns [(step, kind)]; a step with a negative `insert` is outside the model's step type (positions are naturals)."""
+    runs = block_runs(doc)
+    if not runs:
+        return []
+    start, parent, i = rng.choice(runs)
+    off = [0]
+    for j in range(parent.child_count):
+        off.append(off[-1] + parent.child(j).node_size)
+    c0, c2 = parent.child(i), parent.child(i + 2)
+
+    def boundary(node):
+        k = rng.randint(0, node.child_count)
+        return k, sum(node.child(j).node_size for j in range(k))
+    out = []
+    # open end
+    k0 = rng.choice([0, 0, rng.randint(0, c0.child_count)])
+    sl = Slice(Fragment.from_(c0.copy(c0.content.cut_by_index(0, k0))), 0, 1)
+    _, b2 = boundary(c2)
+    f, t = start + off[i], start + off[i + 2] + 1 + b2
+    gf, gt = start + off[i + 1], start + off[i + 2]
+    for ins, kind in ((sl.size + 1, "beyond-open-end"), (sl.size + 1 + rng.randint(0, 2), "beyond-open-end+"),
+                      (sl.size, "at-size")):
+        out.append((ReplaceAroundStep(f, t, gf, gt, sl, ins, False), kind))
+    # open start
+    k2 = rng.choice([c2.child_count, c2.child_count, rng.randint(0, c2.child_count)])
+    sl = Slice(Fragment.from_(c2.copy(c2.content.cut_by_index(k2, c2.child_count))), 1, 0)
+    _, b0 = boundary(c0)
+    f, t = start + off[i] + 1 + b0, start + off[i + 3]
+    gf, gt = start + off[i + 1], start + off[i + 2]
+    for ins, kind in ((-1, "negative-open-start"), (-rng.randint(1, 3), "negative-open-start-"), (0, "at-zero")):
+        out.append((ReplaceAroundStep(f, t, gf, gt, sl, ins, False), kind))
+    return out
 
 
 def payload_valid(step, schema):
     """slice payloads cut from valid documents are valid by construction; wrappers are generated empty"""
     return True
+
+
+# ---- aimed cases for `insert_into` (the flat case validates the content it *built*) ------------------------------------
+# Three local schemas whose textblock `para` tells apart what the old test looked at (`can_replace(index, index, gap)`:
+# the unjoined sequence with the gap *before* a split text) from what is built (the two halves of the text around the
+# gap, adjacent texts with equal marks joined by `Fragment.append`):
+#   inside-text   `image* text*`                 gap with an image inside a text: test passed, result invalid (finding
+#                                                C01-insert-inside-text) — now refused
+#   optional-text `text?`                        gap text that joins the texts around it: test failed (two / three texts),
+#                                                result valid — now accepted
+#   join-pair     `(text (text image)? image)?`  unjoined `text text image image` matches, joined `text image image` does
+#                                                not (`text text (text text)?` itself is not a constructible expression:
+#                                                text in a required position) — now refused
+AIMED_JOIN = {
+    "inside-text": "image* text*",
+    "optional-text": "text?",
+    "join-pair": "(text (text image)? image)?",
+}
+
+
+def aimed_join_schema(shape):
+    return Schema({"nodes": {"doc": {"content": "para+"}, "para": {"content": AIMED_JOIN[shape]},
+                             "image": {"inline": True, "group": "inline"}, "text": {"group": "inline"}},
+                   "marks": {"em": {}}})
+
+
+def aimed_join_content(rng, shape):
+    """a random valid content of `para`, as a list of ("text", str, marked) / ("image",) items (adjacent texts differ in marks)"""
+    t = lambda marked: ("text", gen.gen_text(rng, 1, 4, plain=True), marked)  # noqa: E731
+    if shape == "inside-text":
+        out = [("image",)] * rng.randint(0, 2)
+        m = rng.random() < 0.5
+        for _ in range(rng.randint(0, 3)):
+            out.append(t(m))
+            m = not m
+        return out
+    if shape == "optional-text":
+        return [t(rng.random() < 0.3)] if rng.random() < 0.8 else []
+    r = rng.random()
+    if r < 0.15:
+        return []
+    m = rng.random() < 0.5
+    if r < 0.6:
+        return [t(m), ("image",)]
+    return [t(m), t(not m), ("image",), ("image",)]
+
+
+def aimed_join_nodes(schema, items):
+    em = schema.mark("em")
+    return [schema.node("image") if it[0] == "image" else schema.text(it[1], [em] if it[2] else None) for it in items]
+
+
+def aimed_join_built(pre_items, off, gap_items):
+    """the content `insert_into` has to build and validate, stated on the items: the slice node's content cut at text
+    offset `off` (in positions: an image counts 1), the gap in between, adjacent texts with equal marks joined"""
+    left, right, pos = [], [], 0
+    for it in pre_items:
+        size = 1 if it[0] == "image" else len(it[1])
+        if pos + size <= off:
+            left.append(it)
+        elif pos >= off:
+            right.append(it)
+        else:
+            k = off - pos
+            left.append(("text", it[1][:k], it[2]))
+            right.append(("text", it[1][k:], it[2]))
+        pos += size
+    out = []
+    for it in left + list(gap_items) + right:
+        if out and out[-1][0] == "text" and it[0] == "text" and out[-1][2] == it[2]:
+            out[-1] = ("text", out[-1][1] + it[1], it[2])
+        else:
+            out.append(it)
+    return out
+
+
+def aimed_join_json(items):
+    return [{"type": "image"} if it[0] == "image" else
+            dict({"type": "text", "text": it[1]}, **({"marks": [{"type": "em"}]} if it[2] else {})) for it in items]
+
 
 
 def run(ctx):
@@ -155,27 +311,38 @@ def run(ctx):
         del wreqs[:], wmetas[:]
 
     def wf_stream(info, d, docs):
+        val = validator(info.schema)
         for k in range(ctx.budget(8, 30)):
-            step = gen_wf_probe(rng, info, d, docs)
+            step, payload_kept = gen_wf_probe(rng, info, d, docs)
             kind = type(step).__name__
             wf, ordered = step_wf(step), step_ordered(step)
+            # `apply_no_internal'` / the exact tie of `apply` need `Slice.wf` only: an insertion point outside the slice is
+            # refused by `Slice.insert_at` (code and model alike)
+            swf = slice_wf(step.slice) if isinstance(step, (ReplaceStep, ReplaceAroundStep)) else True
             st, res = apply_outcome(step, d)
             sj = info.step(step)
             replay = {"schema": info.name, "doc": d.to_json(), "step": step.to_json(), "stream": "payload-wf",
                       "open": [getattr(getattr(step, "slice", None), "open_start", None),
                                getattr(getattr(step, "slice", None), "open_end", None)]}
-            ctx.case(["apply-wf", info.name, d.to_json(), sj], nontrivial=wf and ordered)
-            ctx.count(f"wf:{kind}:{'wf' if wf else 'illformed'}:{'ordered' if ordered else 'unordered'}:{st}")
+            ctx.case(["apply-wf", info.name, d.to_json(), sj], nontrivial=swf and ordered)
+            ctx.count(f"wf:{kind}:{'wf' if wf else ('insert-outside' if swf else 'illformed')}:{'ordered' if ordered else 'unordered'}:{st}")
             wreqs.append({"op": "stepWF", "step": sj})
             wmetas.append((replay, "stepWF", {"wf": wf, "ordered": ordered}))
-            if not (wf and ordered):
+            if st == "ok" and swf and ordered and payload_kept:
+                # the slice is as it was cut from a valid document: whatever the insertion point, the result is valid
+                stc, err = outcome(res.check)
+                prob = val.problem(res.to_json())
+                if stc != "ok" or prob:
+                    ctx.violation("invalid-result", "step returned a schema-invalid document: " + (prob or str(err)),
+                                  dict(replay, result=res.to_json()))
+            if not (swf and ordered):
                 if st == "internal":
-                    ctx.count("wf:excluded_internal:" + ("illformed" if not wf else "unordered"))
+                    ctx.count("wf:excluded_internal:" + ("illformed" if not swf else "unordered"))
                     # positions that lie inside the document, in whatever order, are inside the property's quantifier
                     # ("steps … whose positions lie inside the document"): dying with an internal error there is a violation
                     size = d.content.size
                     poss = [getattr(step, a) for a in ("from_", "to", "gap_from", "gap_to", "pos") if hasattr(step, a)]
-                    if wf and all(isinstance(x, int) and 0 <= x <= size for x in poss):
+                    if swf and all(isinstance(x, int) and 0 <= x <= size for x in poss):
                         ctx.violation("internal-error", f"Step.apply of a step whose positions lie inside the document (not in order) died with an internal error: {res}", replay)
                 continue
             if st in ("internal", "hang"):
@@ -192,24 +359,56 @@ def run(ctx):
         aimed_inside_text = si == len(fam)
         if aimed_inside_text:
             # aimed: a textblock that wants its images before its text; replace-around steps that re-wrap a textblock's content
-            # in a slice node and put it *inside the text* of that node (see open finding C01-insert-inside-text)
+            # in a slice node and put it *inside the text* of that node (finding C01-insert-inside-text: with the repaired
+            # `insert_into` such a step is refused whenever the built content `text₁ gap text₂` is not valid content)
             info = SchemaInfo(Schema({"nodes": {"doc": {"content": "para+"}, "para": {"content": "image* text*"},
                                                 "image": {"inline": True, "group": "inline"}, "text": {"group": "inline"}},
                                       "marks": {"em": {}}}), "random")
+        aimed_inline_containers = si > len(fam) and (si - len(fam)) % 5 == 3
+        if aimed_inline_containers:
+            # aimed: inline nodes *with content* whose allowed marks differ from their textblock's (no bundled schema has one)
+            info = schemas.inline_container_schema(rng)
+            ctx.count("aimed_inline_container_schemas")
         schema = info.schema
         val = validator(schema)
         ctx.driver.add_schema(info)
         ctx.count("schema:" + info.name)
-        docs = [gen.gen_doc(rng, schema, budget=rng.choice([6, 12, 25])) for _ in range(ctx.budget(6, 12))]
-        for d in docs:
-            p0 = val.problem(d.to_json())
+        docs = [gen.gen_doc(rng, schema, budget=rng.choice([6, 12, 25])) for _ in range(ctx.budget(6, 12) - (3 if aimed_inline_containers else 0))]
+        # documents built around inline nodes with content (where the schema has any), each with the ranges / marks of its case
+        ic_cases = {}
+        if gen.inline_containers(schema):
+            for _ in range(ctx.budget(3, 6) if aimed_inline_containers else 1):
+                case = gen.gen_inline_container_case(rng, schema)
+                if case is not None:
+                    ic_cases[id(case[0])] = case
+                    docs.append(case[0])
+        problems = {id(x): val.problem(x.to_json()) for x in docs}
+        for d_outer in docs:
+            p0 = problems[id(d_outer)]
             if p0:
                 ctx.notes.append(f"generator produced a document the spec validator rejects ({info.name}): {p0}")
                 continue
             for k in range(ctx.budget(18, 60)):
                 if ctx.time_left() < 0:
                     break
+                d = d_outer
                 step = gen.gen_step(rng, info, d, docs)
+                if k % 8 == 3:
+                    # aimed: a two-node slice open on both sides, the gap in a complete wrapper below the top level (on this
+                    # document, or on another one of this schema when this one has no sibling run with neighbours)
+                    for d2 in [d] + rng.sample(docs, min(3, len(docs))):
+                        st2 = gen.gen_two_sided_around(rng, info, d2) if problems[id(d2)] is None else None
+                        if st2 is not None:
+                            d, step = d2, st2
+                            ctx.count("aimed_two_sided_around_steps")
+                            break
+                if id(d) in ic_cases and k % 2 == 0:
+                    # aimed: a range mark step over / into / inside an inline node with content
+                    _, ic_ranges, ic_marks = ic_cases[id(d)]
+                    f_, t_ = rng.choice(ic_ranges)
+                    mk_ = ic_marks[0] if rng.random() < 0.4 else rng.choice(ic_marks)
+                    step = (AddMarkStep if rng.random() < 0.6 else RemoveMarkStep)(f_, t_, mk_)
+                    ctx.count("aimed_inline_container_mark_steps")
                 if aimed_inside_text and k % 2 == 0 and d.child_count:
                     i0 = rng.randrange(d.child_count)
                     a0 = sum(d.child(j).node_size for j in range(i0))
@@ -219,6 +418,14 @@ def run(ctx):
                                              Slice(Fragment.from_(x0.type.create(x0.attrs, [schema.text(txt)])), 0, 0),
                                              1 + rng.randint(1, len(txt) - 1), rng.random() < 0.3)
                     ctx.count("aimed_insert_inside_text_steps")
+                    # expectation (repaired `insert_into`): the built content `text₁ gap text₂` is valid content of
+                    # `image* text*` iff the gap holds no image — refused otherwise ("Content does not fit in gap")
+                    want_st = "failed" if any(x0.child(j).type.name == "image" for j in range(x0.child_count)) else "ok"
+                    got_st = apply_outcome(step, d)[0]
+                    ctx.count("aimed_inside_text_random:" + got_st)
+                    if got_st != want_st:
+                        ctx.mismatch("aimed-inside-text-expectation",
+                                     {"schema": "random", "doc": d.to_json(), "step": step.to_json()}, want_st, got_st)
                 via_json = rng.random() < 0.3
                 if via_json:
                     stj, step2 = outcome(lambda: Step.from_json(schema, json.loads(json.dumps(step.to_json()))))
@@ -244,10 +451,101 @@ def run(ctx):
                     ctx.violation("internal-error", f"Step.apply died with an internal error: {res}", replay)
                 reqs.append({"op": "apply", "s": info.lean_id, "doc": info.node(d), "step": sj})
                 metas.append((replay, st, info.node(res) if st == "ok" else None))
+            # aimed: insertion point outside the slice (beyond the open end / negative before the open start)
+            for _ in range(ctx.budget(2, 6)):
+                for step, akind in aimed_insert_outside(rng, d):
+                    if rng.random() < 0.3:
+                        stj, step2 = outcome(lambda: Step.from_json(schema, json.loads(json.dumps(step.to_json()))))
+                        if stj != "ok":
+                            ctx.count("aimed_insert_outside:from_json-refuses")
+                            continue
+                        step = step2
+                    st, res = apply_outcome(step, d)
+                    ctx.count(f"aimed_insert_outside:{akind}:{st}")
+                    replay = {"schema": info.name, "schema_spec_nodes": {n: {k2: v for k2, v in t.spec.items() if isinstance(v, (str, bool, int, dict))}
+                                                                         for n, t in schema.nodes.items()} if info.name == "random" else None,
+                              "doc": d.to_json(), "step": step.to_json(), "aimed": "insert-outside:" + akind}
+                    ctx.case(["apply", info.name, d.to_json(), step.to_json()])
+                    if st == "ok":
+                        stc, err = outcome(res.check)
+                        prob = val.problem(res.to_json())
+                        if stc != "ok" or prob:
+                            ctx.violation("invalid-result", "step returned a schema-invalid document: " + (prob or str(err)),
+                                          dict(replay, result=res.to_json()))
+                    elif st in ("internal", "hang"):
+                        ctx.violation("internal-error", f"Step.apply died with an internal error: {res}", replay)
+                    if step.insert > step.slice.size or step.insert < 0:
+                        if st == "ok":
+                            # `Slice.insert_at` refuses an insertion point outside the slice (model: `Slice.insertAt`)
+                            ctx.mismatch("aimed-insert-outside-expectation", replay, "refused", st)
+                    if step.insert >= 0:
+                        reqs.append({"op": "apply", "s": info.lean_id, "doc": info.node(d), "step": info.step(step)})
+                        metas.append((replay, st, info.node(res) if st == "ok" else None))
             if ctx.time_left() > 0:
-                wf_stream(info, d, docs)
+                wf_stream(info, d_outer, docs)
         if len(wreqs) >= 8000:
             flush_wf()
+
+    # aimed: the flat case of `insert_into` at every offset of a slice node's content, gap = the whole content of a
+    # textblock of the document (join shapes; see AIMED_JOIN).  Exact tie with the model as for every other step, the
+    # validity oracle, and the closed-form expectation: the step applies iff the content that has to be built is valid
+    # content of `para` for the independent spec validator.
+    for shape in AIMED_JOIN:
+        info = SchemaInfo(aimed_join_schema(shape), "random")
+        schema = info.schema
+        val = validator(schema)
+        ctx.driver.add_schema(info)
+        ctx.count("schema:aimed-join:" + shape)
+        for _ in range(ctx.budget(60, 300)):
+            paras = [aimed_join_content(rng, shape) for _ in range(rng.randint(1, 3))]
+            d = schema.node("doc", None, [schema.node("para", None, aimed_join_nodes(schema, c)) for c in paras])
+            i0 = rng.randrange(len(paras))
+            a0 = sum(d.child(j).node_size for j in range(i0))
+            x0 = d.child(i0)
+            pre = aimed_join_content(rng, shape)
+            size = sum(1 if it[0] == "image" else len(it[1]) for it in pre)
+            off = rng.randint(0, size)
+            step = ReplaceAroundStep(a0, a0 + x0.node_size, a0 + 1, a0 + x0.node_size - 1,
+                                     Slice(Fragment.from_(schema.node("para", None, aimed_join_nodes(schema, pre))), 0, 0),
+                                     1 + off, False)
+            built = aimed_join_built(pre, off, paras[i0])
+            want = d.to_json()
+            want["content"][i0] = dict({"type": "para"}, **({"content": aimed_join_json(built)} if built else {}))
+            expect_ok = val.problem(want) is None
+            via_json = rng.random() < 0.3
+            if via_json:
+                stj, step2 = outcome(lambda: Step.from_json(schema, json.loads(json.dumps(step.to_json()))))
+                if stj != "ok":
+                    continue
+                step = step2
+            st, res = apply_outcome(step, d)
+            sj = info.step(step)
+            inside = 0 < off < size and aimed_join_built(pre, off, [("image",)]) != aimed_join_built(pre, off, []) and \
+                len(aimed_join_built(pre, off, [("image",)])) == len(pre) + 2
+            ctx.case(["apply", info.name, d.to_json(), sj],
+                     sample={"op": "apply", "schema": "aimed-join:" + shape, "doc": str(d)[:200], "step": step.to_json(), "outcome": st})
+            ctx.count(f"aimed_join:{shape}:{'inside-text' if inside else 'boundary'}:{st}")
+            if shape == "inside-text" and inside:
+                ctx.count("aimed_insert_inside_text_steps")
+            replay = {"schema": info.name, "schema_spec_nodes": {n: {k2: v for k2, v in t.spec.items() if isinstance(v, (str, bool, int, dict))}
+                                                                 for n, t in schema.nodes.items()},
+                      "doc": d.to_json(), "step": step.to_json(), "via_json": via_json, "aimed": "join:" + shape}
+            if st == "ok":
+                stc, err = outcome(res.check)
+                prob = val.problem(res.to_json())
+                if stc != "ok" or prob:
+                    ctx.violation("invalid-result", "step returned a schema-invalid document: " + (prob or str(err)),
+                                  dict(replay, result=res.to_json()))
+                elif expect_ok and not res.eq(Node.from_json(schema, want)):
+                    ctx.mismatch("aimed-join-result", replay, want, res.to_json())
+            elif st in ("internal", "hang"):
+                ctx.violation("internal-error", f"Step.apply died with an internal error: {res}", replay)
+            if (st == "ok") != expect_ok and st in ("ok", "failed"):
+                # not a violation of C01 (a refusal is always allowed); the expectation states what the repaired
+                # `insert_into` does: it refuses exactly the gap contents whose built form the receiving node rejects
+                ctx.mismatch("aimed-join-expectation", replay, "applies" if expect_ok else "refused", st)
+            reqs.append({"op": "apply", "s": info.lean_id, "doc": info.node(d), "step": sj})
+            metas.append((replay, st, info.node(res) if st == "ok" else None))
     flush()
     flush_wf()
     return ctx.finish(
